@@ -35,7 +35,21 @@ func HarnessC18() {
 	defs := schemas.Definitions{"Good": obj(map[string]*schemas.Type{"g": good()})}
 	pos := ""
 	swallowed := false
-	switch zzvrt.Choice(16) {
+	switch zzvrt.Choice(20) {
+	case 16:
+		pos = "items-of-an-array-DEFINITION"
+		defs["List"] = &schemas.Type{Type: schemas.TypeList{"array"}, Items: fault}
+		root.Properties["l"] = &schemas.Type{Ref: "#/$defs/List"}
+	case 17:
+		pos = "items-of-a-nested-array-definition"
+		defs["Grid"] = &schemas.Type{Type: schemas.TypeList{"array"}, Items: &schemas.Type{Type: schemas.TypeList{"array"}, Items: fault}}
+	case 18:
+		pos = "additionalProperties-of-a-map-DEFINITION"
+		defs["Dict"] = &schemas.Type{Type: schemas.TypeList{"object"}, AdditionalProperties: fault}
+		root.Properties["m"] = &schemas.Type{Ref: "#/$defs/Dict"}
+	case 19:
+		pos = "additionalProperties-of-a-map-property"
+		root.Properties["m"] = &schemas.Type{Type: schemas.TypeList{"object"}, AdditionalProperties: fault}
 	case 9:
 		pos = "unreferenced-definition-itself"
 		defs["Bad"] = fault
